@@ -72,6 +72,21 @@ func c12Build(in c12Input) ([]mockq.Rec, refmodel.Expr) {
 		return data, &refmodel.Bin{Op: in.Op, L: &refmodel.Vec{V: in.S}, R: total("R")}
 	case "nan": // x/0 is NaN: comparisons with NaN never hold
 		return data, &refmodel.Bin{Op: in.Op, L: &refmodel.Bin{Op: "/", L: l, R: &refmodel.Lit{V: 0}}, R: &refmodel.Lit{V: in.S}}
+	case "vl": // vector(n) against a literal, on every step of a range query
+		return data, &refmodel.Bin{Op: in.Op, L: &refmodel.Vec{V: in.S}, R: &refmodel.Lit{V: 2}}
+	case "lv":
+		return data, &refmodel.Bin{Op: in.Op, L: &refmodel.Lit{V: 2}, R: &refmodel.Vec{V: in.S}}
+	case "near": // operands that differ by less than any sensible tolerance, but differ: comparisons are exact
+		pairs := [][2]refmodel.Expr{
+			{&refmodel.Bin{Op: "+", L: &refmodel.Vec{V: 0.1}, R: &refmodel.Vec{V: 0.2}}, &refmodel.Vec{V: 0.3}},
+			{&refmodel.Vec{V: 1e-10}, &refmodel.Vec{V: 0}},
+			{&refmodel.Vec{V: 1}, &refmodel.Vec{V: 1.0000000001}},
+			{&refmodel.Vec{V: 1e-10}, &refmodel.Lit{V: 0}},
+			{&refmodel.Lit{V: 0.3}, &refmodel.Bin{Op: "+", L: &refmodel.Vec{V: 0.1}, R: &refmodel.Vec{V: 0.2}}},
+			{&refmodel.Vec{V: 0.3}, &refmodel.Vec{V: 0.3}},
+		}
+		pr := pairs[int(in.S)%len(pairs)]
+		return data, &refmodel.Bin{Op: in.Op, L: pr[0], R: pr[1]}
 	case "vs":
 		return data, &refmodel.Bin{Op: in.Op, L: l, R: &refmodel.Lit{V: in.S}, Bool: in.Bool}
 	case "sv":
@@ -266,6 +281,15 @@ func c12Run(r *vkit.Run) {
 							nontrivial = true
 						}
 					}
+					for k := 0; k < 6; k++ {
+						c12Check(r, c12Input{L: l, R: rr, Op: op, Kind: "near", S: float64(k), Range: rg})
+					}
+				}
+				for _, op := range arith {
+					for _, s := range []float64{2, 0.5, 7} { // (vector() takes no sign)
+						c12Check(r, c12Input{L: l, R: rr, Op: op, Kind: "vl", S: s, Range: rg})
+						c12Check(r, c12Input{L: l, R: rr, Op: op, Kind: "lv", S: s, Range: rg})
+					}
 				}
 				for _, op := range all {
 					for lv := 0; lv < 2; lv++ {
@@ -301,7 +325,7 @@ func c12Run(r *vkit.Run) {
 			r.State(fmt.Sprint(l, rr))
 		}
 	}
-	r.Note("bounds", "left/right vectors = sum by (a) (count_over_time({side=..}[10s])) for every pair of subsets of a in {1,2,3} (equal, overlapping, disjoint, empty), optionally shifted/scaled to reach 0, negatives and fractions; vector-scalar and scalar-vector for 12 operators x scalars {0,2,-3,0.5,0.1,0.3}; comparisons with and without the bool modifier; vector-vector for 15 operators x 6 operand variants; instant and 4-step range in which series appear, persist and disappear on either side; for the 16 pairs with >= 2 series on both sides, 6 operators x instant/range under every hash-map iteration order within 1 (thorough: 2) rotated iterations")
+	r.Note("bounds", "left/right vectors = sum by (a) (count_over_time({side=..}[10s])) for every pair of subsets of a in {1,2,3} (equal, overlapping, disjoint, empty), optionally shifted/scaled to reach 0, negatives and fractions; vector-scalar and scalar-vector for 12 operators x scalars {0,2,-3,0.5,0.1,0.3}; comparisons with and without the bool modifier; vector(n) against a literal on every step; comparisons of operands that differ by 1e-10 or by one ulp; vector-vector for 15 operators x 6 operand variants; instant and 4-step range in which series appear, persist and disappear on either side; for the 16 pairs with >= 2 series on both sides, 6 operators x instant/range under every hash-map iteration order within 1 (thorough: 2) rotated iterations")
 }
 
 func c12Replay(r *vkit.Run, v vkit.Violation) *vkit.Violation {
